@@ -677,7 +677,7 @@ func (w *world) lockTable(role string) map[string]string {
 // position would produce; only its sender is wrong.
 func (w *world) craftLTX(role string, nodeID uint64) ([]byte, ltx.Pos, error) {
 	n := w.n[role]
-	im, err := sim.DiskImage(n.DBDir(w.db), w.o.Layout.PageSize)
+	im, err := sim.StableDiskImage(n.DBDir(w.db), w.o.Layout.PageSize)
 	if err != nil {
 		return nil, ltx.Pos{}, err
 	}
